@@ -160,7 +160,9 @@ impl<'a> Lexer<&'a str> {
             }
             // ignore all lines that end with an odd number of backslashes
             loop {
-                let (before, after) = self.i.split_once('\n').unwrap_or((self.i, ""));
+                // the rest must remain a slice of the input (error spans are computed from it)
+                let end = &self.i[self.i.len()..];
+                let (before, after) = self.i.split_once('\n').unwrap_or((self.i, end));
                 let before = before.strip_suffix('\r').unwrap_or(before);
                 self.i = after;
                 // does the line end with an even number of backslashes?
